@@ -189,18 +189,23 @@ def run_property(pid, tier, seed, root):
             continue
         if kind == 'canary':
             # every canary function must be refuted; every other function must still verify
-            canary_names = set()
-            for it in res.assembled.items:
-                if it.ident.endswith('__canary') or it.flags.get('canary_self'):
-                    canary_names.add(it.emitted_name)
+            canary_items = [(it.emitted_name, it.flags.get('mod_path', '')) for it in res.assembled.items
+                            if it.ident.endswith('__canary') or it.flags.get('canary_self')]
+            canary_names = {n for n, _ in canary_items}
             for m in re.finditer(r'\bfn\s+([A-Za-z0-9_]+__canary)\b', res.assembled.text):
-                canary_names.add(m.group(1))
+                if m.group(1) not in canary_names:
+                    canary_items.append((m.group(1), None)); canary_names.add(m.group(1))
             seen = set()
-            for name, rec in res.functions.items():
-                base = name.split('::')[-1]
-                if base in canary_names:
-                    seen.add(base)
-                    if rec['success']:
+            for cname, mpath in canary_items:
+                cands = [n for n in res.functions if n.split('::')[-1] == cname]
+                if len(cands) > 1 and mpath is not None:
+                    want = '::'.join(x for x in [res.unit, mpath, cname] if x)
+                    exact = [n for n in cands if n == want]
+                    cands = exact or ([n for n in cands if n.endswith('::' + mpath + '::' + cname)] if mpath else
+                                      sorted(cands, key=lambda n: n.count('::'))[:1])
+                for name in cands:
+                    seen.add(cname)
+                    if res.functions[name]['success']:
                         unsound.append(f'{res.unit}[{",".join(defs)}]: canary {name} was PROVED — contradictory precondition, '
                                        f'over-strong stub or inconsistent axiom')
                     else:
@@ -224,7 +229,8 @@ def run_property(pid, tier, seed, root):
         if not res.functions:
             undecided.append(f'{res.unit}: no function results'); continue
         failed = {short(n, res.unit) for n in res.failed_functions()}
-        nocount = {it.emitted_name for it in res.assembled.items if it.flags.get('count') == 'no'}
+        nocount_q = {'::'.join(x for x in [it.flags.get('mod_path', ''), it.emitted_name] if x) for it in res.assembled.items if it.flags.get('count') == 'no'}
+        nocount = set()
         # lemmas of shared spec files are verified in every unit that includes them but counted once
         for n_ln, ln in enumerate(res.assembled.text.split('\n')):
             org = res.assembled.origins[n_ln] if n_ln < len(res.assembled.origins) else None
@@ -241,7 +247,7 @@ def run_property(pid, tier, seed, root):
                 if not own_function(name, res.unit):
                     continue
                 sn = short(name, res.unit)
-                if sn.split('::')[-1] in nocount and sn not in failed:
+                if (sn in nocount_q or sn.split('::')[-1] in nocount) and sn not in failed:
                     continue   # re-verified shared callee: counted in the unit that owns it
                 obligations += len(obs)
                 if sn not in failed:
